@@ -32,7 +32,8 @@ def commands(rng, s):
     if k < 15:
         return 'sync autosave', s.sync('--test-force-autosave-at', str(1 + rng.below(6)))
     if k < 17:
-        return 'scrub', s.run('scrub', '-p', rng.choice(['full', 'new', 'bad', '50']), '-o', '0')
+        plan = rng.choice(['full', 'new', 'bad', '50', '100'])
+        return 'scrub', s.run('scrub', '-p', plan, *(['-o', '0'] if plan.isdigit() else []))
     if k < 18:
         return 'fix', s.run('fix', *rng.choice([[], ['-e'], ['-f', 'base0/'], ['-d', a.disks[0]]]))
     if k < 19:
